@@ -501,12 +501,38 @@ func (w *c15World) clientWrite(cl *c15Client) {
 			written := len(tsEnc(cl.first)) - len(cl.pendingBytes)
 			n = min(n, cl.closeAfter-written)
 		}
+		var piped [][]byte
 		if n > 0 {
-			_, _ = cl.conn.Write(cl.pendingBytes[:n])
+			out := append([]byte(nil), cl.pendingBytes[:n]...)
+			if n == len(cl.pendingBytes) && cl.kind == c15Valid && t.Bias(1, 4, "pipelined") {
+				// the client does not wait for an answer: more packets follow the first frame in the same
+				// write, so the mux finds them in the very chunk that completes the first frame
+				for j, k := 0, t.Range(1, 3, "pipelined.k"); j < k; j++ {
+					p := w.payload(fmt.Sprintf("c%d", cl.id), []int{24, 1, 300, 1200}[t.Choose(4, "pipelined.len")])
+					piped = append(piped, p)
+					out = append(out, tsEnc(p)...)
+				}
+				if t.Bias(1, 2, "pipelined.partial") {
+					// ... the last one only in part
+					cutAt := len(out) - t.Range(1, len(tsEnc(piped[len(piped)-1]))-1, "pipelined.cut")
+					rest := out[cutAt:]
+					out = out[:cutAt]
+					defer func() { _, _ = cl.conn.Write(rest); synctest.Wait() }()
+				}
+				c.Fault("frames-pipelined-behind-first-frame")
+			}
+			_, _ = cl.conn.Write(out)
 			cl.pendingBytes = cl.pendingBytes[n:]
 		}
-		c.Logf("client %d writes %d byte(s) of its first frame, %d left", cl.id, n, len(cl.pendingBytes))
+		c.Logf("client %d writes %d byte(s) of its first frame, %d left (+%d pipelined packets)", cl.id, n, len(cl.pendingBytes), len(piped))
 		synctest.Wait()
+		if len(piped) > 0 {
+			defer func() {
+				if cl.verdict == c15Good {
+					cl.sent = append(cl.sent, piped...)
+				}
+			}()
+		}
 		if cl.kind == c15EarlyCloser && len(tsEnc(cl.first))-len(cl.pendingBytes) >= cl.closeAfter {
 			w.clientClose(cl, false)
 			return
